@@ -8,7 +8,7 @@
 
    Hypotheses on the heap: [walk_wf] (directories have a single parent, no cycle - consequences of C05's
    invariant), [links_clean] (targets are stored cleaned, as Symlink stores them), the view root is a
-   directory the caller may search (unconditional for the administrator).
+   directory.  No hypothesis on permissions: any user.
 
    What is NOT covered: walks the kernel refuses with ELOOP (more than 40 links; the implementation
    allows 64 - [C04_refuted_budget]); paths that are not of the form "/c1/.../cn" with proper names
@@ -21,21 +21,26 @@ Theorem C04_perm_agree : forall (m : meta) (u : user),
   check_permission m OpenLookup u = us_admin u || kperm_bits m u 1.
 Proof. exact perm_lookup_agree. Qed.
 
-(* goal 1: no symbolic link met - no heap invariant needed, exact fuel bounds *)
+(* goal 1: no symbolic link met - no heap invariant, no hypothesis on permissions, exact fuel bounds *)
 Theorem C04_bridge_nolink : forall (s : fsys) (sv : sview) (cs : list str) (slm : slmode) (follow : bool),
   let v := sv_view sv in
   v_os v = Linux -> Forall good_comp cs -> link_free (f_heap s) (v_root v) cs = true ->
-  node_is_dir (f_heap s) (v_root v) = true -> kperm (f_heap s) (v_root v) 1 (v_user v) = true ->
+  node_is_dir (f_heap s) (v_root v) = true ->
   length cs < SEARCH_FUEL ->
   walk_rel (f_heap s) (v_user v) (v_root v) (precise_of slm)
     (search_node s v (abs_path cs) slm) (klookup s sv false follow (abs_path cs)).
 Proof. exact bridge_nolink_lookup. Qed.
 
-(* the one difference of the two permission disciplines: the root's own search bit is tested by the kernel only *)
+(* the root's own search bit: the implementation tests it before each lookup made in the root, the kernel before
+   each lookup made in any directory - a root the caller may not search stops both walks at once *)
 Theorem C04_bridge_root_unsearchable :
-  forall (h : heap) (v : view) (c : str) (cs : list str) (follow pm md : bool) (fk cnt kroot : nat),
+  forall (h : heap) (v : view), v_os v = Linux ->
+  forall (c : str) (cs : list str) (slm : slmode) (follow pm md : bool)
+         (fi fk cnt slcount kroot : nat) (saved : option piter) (pi : piter),
+  Forall comp_ok (c :: cs) -> before (c :: cs) [] pi ->
   node_is_dir h (v_root v) = true -> kperm h (v_root v) 1 (v_user v) = false ->
-  kwalk (S fk) h (v_user v) kroot pm follow (v_root v) (c :: cs) cnt md = WErr EACCES.
+  sr_err (search_loop (S fi) h v slm (v_root v) (v_root v) pi slcount saved) = EPermDenied
+  /\ kwalk (S fk) h (v_user v) kroot pm follow (v_root v) (c :: cs) cnt md = WErr EACCES.
 Proof. exact bridge_root_unsearchable. Qed.
 
 (* goal 2: with symbolic links; SlLstat <-> no-follow, SlStat / SlEval <-> follow *)
@@ -43,7 +48,7 @@ Theorem C04_resolve : forall (s : fsys) (sv : sview) (slm : slmode) (cs : list s
   let v := sv_view sv in
   let h := f_heap s in
   v_os v = Linux -> walk_wf h -> links_clean h ->
-  node_is_dir h (v_root v) = true -> kperm h (v_root v) 1 (v_user v) = true ->
+  node_is_dir h (v_root v) = true ->
   Forall good_comp cs ->
   let K := klookup s sv false (follow_of slm) (abs_path cs) in
   let r := search_node s v (abs_path cs) slm in
@@ -56,7 +61,7 @@ Theorem C04_resolve_sized : forall (s : fsys) (sv : sview) (slm : slmode) (cs : 
   let v := sv_view sv in
   let h := f_heap s in
   v_os v = Linux -> walk_wf h -> links_clean h -> ptr_valid h -> tbound h T ->
-  node_is_dir h (v_root v) = true -> kperm h (v_root v) 1 (v_user v) = true ->
+  node_is_dir h (v_root v) = true ->
   Forall good_comp cs ->
   (slCountMax + 1) * (length cs + slCountMax * T + 1) <= SEARCH_FUEL ->
   length cs + 1 + MAXSYMLINKS * T <= WALK_FUEL ->
@@ -95,6 +100,7 @@ Theorem C04_nofollow :
   /\ (forall s v p q, search_node s v p SlLstat = search_node s v q SlLstat -> remove s v p = remove s v q)
   /\ (forall s v p q p2 q2, search_node s v p SlLstat = search_node s v q SlLstat ->
                             search_node s v p2 SlLstat = search_node s v q2 SlLstat ->
+                            str_eqb p p2 = str_eqb q q2 ->
                             rename s v p p2 = rename s v q q2)
   /\ (forall s v p q p2 q2, search_node s v p SlLstat = search_node s v q SlLstat ->
                             search_node s v p2 SlLstat = search_node s v q2 SlLstat ->
@@ -116,7 +122,7 @@ Theorem C04_nofollow_final : forall (s : fsys) (sv : sview) (cs : list str) (par
   let v := sv_view sv in
   let h := f_heap s in
   v_os v = Linux -> walk_wf h -> links_clean h ->
-  node_is_dir h (v_root v) = true -> kperm h (v_root v) 1 (v_user v) = true ->
+  node_is_dir h (v_root v) = true ->
   Forall good_comp cs ->
   klookup s sv false false (abs_path cs) = WNode par LNorm name n -> get h n = Some (NSym t m) ->
   sr_err (search_node s v (abs_path cs) SlLstat) <> EFuel ->
